@@ -44,7 +44,23 @@ def run(chk, prog):
                'complete_variable_observation returns a map keyed by variable name (%s)' % rty.split('<')[0],
                'complete_variable_observation no longer returns a map keyed by name (%s): a variable could be listed '
                'twice' % rty, cvo.loc(0))
-    calls = [(bb, t) for bb, t in ci.calls() if callee_short(t) == 'Story::notify_variable_changed']
+    # call sites in continue_internal itself or in a closure it hands to an iterator adaptor (`.for_each(|(n, v)| ..)`);
+    # such a site is represented by the block of continue_internal in which the adaptor is called
+    from analysis.defuse import full_lineage as _full_lineage
+    calls, call_origin = [], {}
+    for g_ in prog.with_closures(ci):
+        for bb, t in g_.calls():
+            if callee_short(t) != 'Story::notify_variable_changed':
+                continue
+            if g_ is ci:
+                calls.append((bb, t))
+                call_origin[bb] = (ci, bb, t, False)
+            else:
+                host = [b2 for b2, t2 in ci.calls() if g_.p in (t2['f'].get('closures') or [])]
+                if host:
+                    calls.append((host[0], t))
+                    call_origin[host[0]] = (g_, bb, t, callee_short(ci.blocks[host[0]]['term']).rsplit('::', 1)[-1]
+                                            in ('for_each', 'try_for_each', 'map', 'fold'))
     allc = [(fn.short, fn.loc(bb)) for fn, bb, t in prog.callers('Story::notify_variable_changed')]
     chk.decide(RA, chk.key(RA, 'single-notify-site'), len(calls) == 1,
                'one call site of notify_variable_changed in continue_internal',
@@ -63,9 +79,11 @@ def run(chk, prog):
             body = g.loop_body(h, tails)
             if nb in body and (loop is None or len(body) < len(loop)):
                 loop = body
-        in_loop = loop is not None
+        in_loop = loop is not None or call_origin[nb][3]
         # the loop iterates the map returned by complete_variable_observation
-        name_prov = tr.prov(ci, nt['args'][1])
+        og, ob, ot, _ad = call_origin[nb]
+        name_prov = tr.prov(ci, nt['args'][1]) if og is ci else _full_lineage(prog, og, ot['args'][1])
+        name_prov = set(name_prov) | {('call:' + a[4:]) for a in name_prov if a.startswith('via:')}
         from_map = 'call:VariablesState::complete_variable_observation' in name_prov
         chk.decide(RA, chk.key(RA, 'loop-over-result'), in_loop and from_map,
                    'the notification loop iterates the map returned by complete_variable_observation',
@@ -82,7 +100,9 @@ def run(chk, prog):
            and _arith_kind(ci, s) == 'dec']
     restore = [bb for bb, t in ci.calls() if callee_short(t) == 'Story::restore_state_snapshot']
     for bb, t in calls:
-        nprov = tr.prov(ci, t['args'][1])
+        og, ob, ot, _ad = call_origin[bb]
+        nprov = tr.prov(ci, t['args'][1]) if og is ci else _full_lineage(prog, og, ot['args'][1])
+        nprov = set(nprov) | {('call:' + a[4:]) for a in nprov if a.startswith('via:')}
         chk.decide(RB, chk.key(RB, 'after-completion'), 'call:VariablesState::complete_variable_observation' in nprov
                    and bool(comp), 'the notified names/values are the ones produced by complete_variable_observation',
                    'notifications are not fed by complete_variable_observation', ci.loc(bb))
@@ -146,10 +166,12 @@ def run(chk, prog):
             okret = True
             for r in gsg.returns:
                 pass
-        merged = any(callee_short(t) == 'HashSet::insert'
-                     and 'field:VariablesState::changed_variables_for_batch_obs' in tr.prov(ap, t['args'][0])
-                     and ('field:StatePatch::changed_variables' in tr.prov(ap, t['args'][1]))
-                     for bb, t in ap.calls())
+        _lt11 = Tracer(prog, transparent=lambda cs: True, use_summaries=False)
+        merged = any(callee_short(t).rsplit('::', 1)[-1] in ('insert', 'extend', 'extend_from_slice', 'union', 'append')
+                     and len(t['args']) > 1
+                     and 'field:VariablesState::changed_variables_for_batch_obs' in tr.prov(g_, t['args'][0])
+                     and ('field:StatePatch::changed_variables' in _lt11.prov(g_, t['args'][1]))
+                     for g_ in prog.with_closures(ap) for bb, t in g_.calls())
         chk.decide(RC, chk.key(RC, 'apply_patch-merges'), merged,
                    'apply_patch inserts patch.changed_variables into the batch set',
                    'apply_patch no longer merges the look-ahead\'s changed variables into the batch set: a committed '
